@@ -14,7 +14,7 @@
    (memmap used, or the proxy is not rank-0; every image proxy has rank >= 1: see
    C03_mmap_rank0_refuted).  Zero-length axes are covered (fix 599d4b17). *)
 From Coq Require Import ZArith List Bool Lia.
-From NV Require Import Base.PySlice C06.Model C06.Lemmas C03.Model C03.Lemmas.
+From NV Require Import Base.PySlice C06.Model C06.Lemmas C03.Model C03.Lemmas C03.ModelS C03.LemmasS.
 Import ListNotations.
 Open Scope Z_scope.
 
@@ -27,6 +27,45 @@ Theorem C03_getitem_eq_index_single :
   = Ok (np_index dR o shape c (map (scale f) (array_elems file shape w off))).
 Proof. exact @ap_getitem_spec. Qed.
 Print Assumptions C03_getitem_eq_index_single.
+
+(* ---- indexing commutes with ANY elementwise function (either memory order) *)
+Theorem C03_index_commutes_with_elementwise :
+  forall (A B : Type) (g : A -> B) (dA : A) (dB : B) o shape c (l : list A),
+  ix_valid shape c -> zlen l = prod shape ->
+  np_index dB o shape c (map g l) = (fst (np_index dA o shape c l), map g (snd (np_index dA o shape c l))).
+Proof. exact @np_index_map. Qed.
+Print Assumptions C03_index_commutes_with_elementwise.
+
+(* ---- ... instantiated with the CONCRETE IEEE-754 arithmetic of ArrayProxy._get_scaled /
+   apply_read_scaling (ModelS.v: Flocq binary32/binary64/x87, dtype selection by can_cast and
+   int_scinter_ftype, the (1,0) shortcut, raw*slope then +inter in the promoted precision, the
+   final casts for a requested dtype): proxy[ix] — or np.asarray(proxy, dtype=req)[ix] — is, bit
+   for bit, the elementwise scaling of the raw partial read.  `decode` (bytes of one element ->
+   its value) is any function (C10). *)
+Theorem C03_scaled_partial_read_bitexact :
+  forall (decode : list Z -> sval) d slope inter req rd file mm shape w off o ix c,
+  unscaled_hyps rd file mm shape w off ix c ->
+  ap_getitem rd (sc decode d slope inter req) mm shape w off o tt ix
+  = Ok (np_index None o shape c (map (sc decode d slope inter req tt) (array_elems file shape w off)))
+  /\ snd (np_index None o shape c (map (sc decode d slope inter req tt) (array_elems file shape w off)))
+     = map (sc decode d slope inter req tt) (snd (np_index [] o shape c (array_elems file shape w off))).
+Proof. exact scaled_partial_read_bitexact. Qed.
+Print Assumptions C03_scaled_partial_read_bitexact.
+
+(* ---- the result dtype (and whether scaling overflows every float type) is a function of the
+   on-disk dtype, the two factors and the requested dtype only: every element of every partial
+   read — any index, shape, order, reader, data — carries scaled_dtype d slope inter req *)
+Theorem C03_result_dtype_index_independent :
+  forall (decode : list Z -> sval) d slope inter req rd mm shape w off o ix r,
+  ap_getitem rd (sc decode d slope inter req) mm shape w off o tt ix = Ok r ->
+  Forall (dtype_is (scaled_dtype d slope inter req)) (snd r).
+Proof. exact result_dtype_index_independent. Qed.
+Print Assumptions C03_result_dtype_index_independent.
+
+Theorem C03_scaled_elem_dtype : forall d slope inter req v dt x,
+  scaled_elem d slope inter req v = Some (dt, x) -> scaled_dtype d slope inter req = Some dt.
+Proof. exact scaled_elem_dtype. Qed.
+Print Assumptions C03_scaled_elem_dtype.
 
 (* ---- per-sub-brick factors on the last axis (AFNIArrayProxy), or no scaling at all *)
 Theorem C03_getitem_eq_index_last_axis_factors :
